@@ -443,7 +443,6 @@ func funcValuesOf(v ssa.Value, depth int, seen map[ssa.Value]bool, env funEnv) [
 	return out
 }
 
-
 // rootEnv: for an exploration that starts inside fn (not through a call of fn): the function-typed parameters of fn
 // bound to what any call site of fn in the module hands in.
 func rootEnv(P *Program, fn *ssa.Function) funEnv {
